@@ -20,6 +20,11 @@ inductive Lit where
   | str (cs : List Nat) | bytes (bs : List Nat)
 deriving DecidableEq, Repr
 
+inductive LitKind where | none | bool | int | flt | str | bytes
+deriving DecidableEq, Repr
+def Lit.kind : Lit → LitKind
+  | .none => .none | .bool _ => .bool | .int _ => .int | .flt _ _ => .flt | .str _ => .str | .bytes _ => .bytes
+
 inductive SeqOrigin where
   | list | set | frozenset | deque | sequence | iterable | collection | container | abstractSet | mutableSet | mutableSequence
 deriving DecidableEq, Repr
@@ -78,7 +83,7 @@ structure Env where
   baseName : ClsId → Option NameId         -- __base__.__name__ ; none when __base__ is None
   ctx : NameId → Option ClsId              -- context used to resolve forward references (names of classes)
   fieldNames : ClsId → Option (List NameId)  -- keys of cls.__annotations__, none when the class has no such attribute
-  litCls : Lit → ClsId
+  litCls : LitKind → ClsId                 -- NoneType, bool, int, float, str, bytes
   tupleCls : ClsId
   typeCls : ClsId
   iteratorCls : ClsId
@@ -87,7 +92,7 @@ structure Env where
   metaOf : ClsId → ClsId                   -- type(C)
 
 def Val.typeOf (env : Env) : Val → ClsId
-  | .lit l => env.litCls l
+  | .lit l => env.litCls l.kind
   | .inst c => c
   | .coll c _ => c
   | .mapping c _ => c
@@ -241,121 +246,162 @@ def lookupField (names : List NameId) (xs : List Val) (k : NameId) : Option Val 
 
 def sameKeys (a b : List NameId) : Bool := a.all b.contains && b.all a.contains
 
+/-! ### one non-recursive function per annotation node: the recursive results come in as arguments, so that the
+    induction principle of `isInstance` has one case per constructor and every node has its own lemmas -/
+
+def clsNode (env : Env) (c : ClsId) (v : Val) : Raw :=
+  if v.hasAsdict then .ok false                            -- `_asdict` branch: the class has no `__annotations__`
+  else .ok (env.sub (v.typeOf env) c)
+
+def clsFNode (env : Env) (c : ClsId) (names : List NameId) (v : Val) (fields : List NameId → List Val → Raw) : Raw :=
+  match v with
+  | .ntup _ vnames xs =>                                   -- `_asdict` branch: structural comparison, no isinstance
+      if !sameKeys vnames names then .ok false else fields vnames xs
+  | v => .ok (env.sub (v.typeOf env) c)
+
+def anyNode : Raw := if specialIs "Any" "const_true" then .ok true else .raisedOther
+
+def unionName : USpell → String | .union => "Union" | .optional => "Optional" | .pipe => "nionType"
+
+def unionNode (sp : USpell) (n : Nat) (members : Raw) : Raw :=
+  if !requiredArgsOk (unionName sp) n then .raisedPed else
+  if sp != .pipe && !specialIs (match sp with | .optional => "Optional" | _ => "Union") "_instancecheck_union" then .raisedOther else
+  members
+
+def literalNode (ls : List Lit) (v : Val) : Raw :=
+  if !specialIs "Literal" "_instancecheck_literal" then .raisedOther else
+  (match v with | .lit l => .ok (ls.any (litEq l)) | _ => .ok false)
+
+def effSpell (pc : Bool) (sp0 : Spell) : Spell := if pc then .typing else sp0
+
+def typeOfNode (env : Env) (pc : Bool) (sp0 : Spell) (a : Ann) (v : Val) : Raw :=
+  let sp := effSpell pc sp0
+  if sp == .pep585 && v.hasAsdict then .ok false else
+  if sp == .pep585 && !(originConvertible "type" && convOk a) then .raisedOther else
+  if genericChecksOrigin && !env.sub (v.typeOf env) env.typeCls then .ok false else
+  if !originIs "typing.Type" "_instancecheck_type" then .raisedOther else
+  (match a with
+   | .any => .ok true
+   | a => (match v with | .clsObj c => isSubtypeCls env c a | _ => .raisedOther))
+
+def fwdNode (env : Env) (n : NameId) (v : Val) : Raw :=
+  match env.ctx n with
+  | some c =>
+     (match v with
+      | .ntup _ vnames _ => (match env.fieldNames c with
+          | Option.none => .ok false
+          | some fs => if !sameKeys vnames fs then .ok false else .raisedOther)   -- field annotations of the resolved class: not modelled
+      | v => .ok (env.sub (v.typeOf env) c))
+  | Option.none => .raisedOther                            -- NameError from eval
+
+def seqNode (env : Env) (pc : Bool) (sp0 : Spell) (o : SeqOrigin) (a : Ann) (v : Val) (elem : Bool → Val → Raw) : Raw :=
+  let sp := effSpell pc sp0
+  if !requiredArgsOk (seqName sp o) 1 then .raisedPed else
+  if sp == .pep585 && v.hasAsdict then .ok false else
+  if sp == .pep585 && !(originConvertible o.runtimeName && convOk a) then .raisedOther else
+  if !requiredArgsOk o.typingName 1 then .raisedPed else
+  if genericChecksOrigin && !env.sub (v.typeOf env) (env.seqCls o) then .ok false else
+  if !originIs ("typing." ++ o.typingName) "_instancecheck_iterable" then .raisedOther else
+  if iteratorSkip && env.sub (v.typeOf env) env.iteratorCls then .ok true else
+  (match v.iter with
+   | some xs => elemQuant (elem (sp == .pep585)) xs
+   | Option.none => .raisedOther)                          -- TypeError: not iterable
+
+def mapNode (env : Env) (pc : Bool) (sp0 : Spell) (o : MapOrigin) (k w : Ann) (v : Val) (key val : Bool → Val → Raw) : Raw :=
+  let sp := effSpell pc sp0
+  if !requiredArgsOk (mapName sp o) 2 then .raisedPed else
+  if sp == .pep585 && v.hasAsdict then .ok false else
+  if sp == .pep585 && !(originConvertible o.runtimeName && convOk k && convOk w) then .raisedOther else
+  if !requiredArgsOk o.typingName 2 then .raisedPed else
+  if genericChecksOrigin && !env.sub (v.typeOf env) (env.mapCls o) then .ok false else
+  if !originIs ("typing." ++ o.typingName) "_instancecheck_mapping" then .raisedOther else
+  (match v.items with
+   | some kvs => allRaw (fun kv =>
+       (if itemsChecksKey then key (sp == .pep585) kv.1 else .ok true).and2 fun _ =>
+         (if itemsChecksValue then val (sp == .pep585) kv.2 else .ok true)) kvs
+   | Option.none => .raisedOther)
+
+def tupleNode (env : Env) (pc : Bool) (sp0 : Spell) (items : List Ann) (v : Val) (zip : Bool → List Val → Raw) : Raw :=
+  let sp := effSpell pc sp0
+  if !requiredArgsOk (tupleName sp) items.length then .raisedPed else
+  if sp == .pep585 && v.hasAsdict then .ok false else
+  if sp == .pep585 && !(originConvertible "tuple" && convOk.convOkL items) then .raisedOther else
+  if !requiredArgsOk "Tuple" items.length then .raisedPed else          -- Tuple[()] : "misses some type arguments"
+  if genericChecksOrigin && !env.sub (v.typeOf env) env.tupleCls then .ok false else
+  if !originIs "typing.Tuple" "_instancecheck_tuple" then .raisedOther else
+  (match v.tupleItems with
+   | some xs => if tupleLengthTest && xs.length != items.length then .ok false else zip (sp == .pep585) xs
+   | Option.none => .raisedOther)
+
+def tupleVarNode (env : Env) (pc : Bool) (sp0 : Spell) (a : Ann) (v : Val) (elem : Bool → Val → Raw) : Raw :=
+  let sp := effSpell pc sp0
+  if !requiredArgsOk (tupleName sp) 2 then .raisedPed else
+  if sp == .pep585 && v.hasAsdict then .ok false else
+  if sp == .pep585 && !(originConvertible "tuple" && convOk a) then .raisedOther else
+  if !requiredArgsOk "Tuple" 2 then .raisedPed else
+  if genericChecksOrigin && !env.sub (v.typeOf env) env.tupleCls then .ok false else
+  if !originIs "typing.Tuple" "_instancecheck_tuple" then .raisedOther else
+  (match v.tupleItems with
+   | some xs => allRaw (elem (sp == .pep585)) xs
+   | Option.none => .raisedOther)
+
+def bareNode (env : Env) (o : BareOrigin) (v : Val) : Raw :=
+  if !requiredArgsOk o.name 0 then .raisedPed else
+  if o.isBuiltin then
+    (if v.hasAsdict then .ok false                        -- `_asdict` branch precedes the bare-builtin test
+     else if bareBuiltins.contains o.name then .raisedPed  -- 'Missing type arguments'
+     else .ok (match o with
+        | .list => env.sub (v.typeOf env) (env.seqCls .list) | .set => env.sub (v.typeOf env) (env.seqCls .set)
+        | .frozenset => env.sub (v.typeOf env) (env.seqCls .frozenset) | .dict => env.sub (v.typeOf env) (env.mapCls .dict)
+        | .tuple => env.sub (v.typeOf env) env.tupleCls | _ => env.sub (v.typeOf env) env.typeCls))
+  else (match o with                                      -- a bare typing generic that passed the table test
+    | .tUnion | .tOptional => .ok false
+    | .tCallable => if v.isNone then .ok false else .raisedOther
+    | .tTuple => if !env.sub (v.typeOf env) env.tupleCls then .ok false else
+                  (match v.tupleItems with | some xs => .ok xs.isEmpty | Option.none => .raisedOther)
+    | .tType => if !env.sub (v.typeOf env) env.typeCls then .ok false else .raisedOther      -- `type_[0]` on ()
+    | .tDict => if !env.sub (v.typeOf env) (env.mapCls .dict) then .ok false else .raisedOther
+    | .tList => if !env.sub (v.typeOf env) (env.seqCls .list) then .ok false else .raisedOther
+    | .tSet => if !env.sub (v.typeOf env) (env.seqCls .set) then .ok false else .raisedOther
+    | .tFrozenSet => if !env.sub (v.typeOf env) (env.seqCls .frozenset) then .ok false else .raisedOther
+    | .tIterable => if !env.sub (v.typeOf env) (env.seqCls .iterable) then .ok false else .raisedOther
+    | _ => if !env.sub (v.typeOf env) (env.seqCls .sequence) then .ok false else .raisedOther)
+
+/-- `any([...])` step: both the head and the rest have been evaluated -/
+def anyStep (h : Raw) (rest : Raw) : Raw :=
+  match h with
+  | .ok b => (match rest with | .ok b' => .ok (b || b') | r => r)
+  | r => r
+/-- `all([...])` step (a list: every element is evaluated) -/
+def allStep (h : Raw) (rest : Raw) : Raw :=
+  match h with
+  | .ok b => (match rest with | .ok b' => .ok (b && b') | r => r)
+  | r => r
+
 mutual
+/-- `_is_instance`.  The Boolean says whether the annotation is an argument of a PEP 585 alias that has already been
+    translated by `convert_to_typing_types` (then it behaves like its typing spelling). -/
 def isInstance (env : Env) (orc : Nat → Val → Raw) : Bool → Ann → Val → Raw
   | _, .none, _ => .raisedOther                                  -- None.__module__
-  | _, .cls c, v =>
-      if v.hasAsdict then .ok false                            -- `_asdict` branch: the class has no `__annotations__`
-      else .ok (env.sub (v.typeOf env) c)
-  | _, .clsF c names anns, v =>
-      match v with
-      | .ntup _ vnames xs =>                                   -- `_asdict` branch: structural comparison, no isinstance
-          if !sameKeys vnames names then .ok false else fieldsRaw env orc false names anns vnames xs
-      | v => .ok (env.sub (v.typeOf env) c)
-  | _, .any, _ => if specialIs "Any" "const_true" then .ok true else .raisedOther
-  | _, .union sp ms, v =>
-      if !requiredArgsOk (match sp with | .union => "Union" | .optional => "Optional" | .pipe => "nionType") ms.length then .raisedPed else
-      if sp != .pipe && !specialIs (match sp with | .optional => "Optional" | _ => "Union") "_instancecheck_union" then .raisedOther else
-      anyRaw env orc false ms v
-  | _, .literal ls, v =>
-      if !specialIs "Literal" "_instancecheck_literal" then .raisedOther else
-      (match v with | .lit l => .ok (ls.any (litEq l)) | _ => .ok false)
+  | _, .cls c, v => clsNode env c v
+  | _, .clsF c names anns, v => clsFNode env c names v (fun vnames xs => fieldsRaw env orc false names anns vnames xs)
+  | _, .any, _ => anyNode
+  | _, .union sp ms, v => unionNode sp ms.length (anyRaw env orc false ms v)
+  | _, .literal ls, v => literalNode ls v
   | _, .newType s, v => .ok (env.sub (v.typeOf env) s)
-  | pc, .typeOf sp0 a, v =>
-      let sp := if pc then Spell.typing else sp0
-      if sp == .pep585 && v.hasAsdict then .ok false else
-      if sp == .pep585 && !(originConvertible "type" && convOk a) then .raisedOther else
-      if genericChecksOrigin && !env.sub (v.typeOf env) env.typeCls then .ok false else
-      if !originIs "typing.Type" "_instancecheck_type" then .raisedOther else
-      (match a with
-       | .any => .ok true
-       | a => (match v with | .clsObj c => isSubtypeCls env c a | _ => .raisedOther))
-  | _, .fwd n, v => (match env.ctx n with
-       | some c =>
-          (match v with
-           | .ntup _ vnames _ => (match env.fieldNames c with
-               | Option.none => .ok false
-               | some fs => if !sameKeys vnames fs then .ok false else .raisedOther)   -- field annotations of the resolved class: not modelled
-           | v => .ok (env.sub (v.typeOf env) c))
-       | Option.none => .raisedOther)                          -- NameError from eval
+  | pc, .typeOf sp0 a, v => typeOfNode env pc sp0 a v
+  | _, .fwd n, v => fwdNode env n v
   | _, .strAnn _, _ => .raisedOther                               -- a string is only handled at top level (`_check_type`)
-  | pc, .seq sp0 o a, v =>
-      let sp := if pc then Spell.typing else sp0
-      if !requiredArgsOk (seqName sp o) 1 then .raisedPed else
-      if sp == .pep585 && v.hasAsdict then .ok false else
-      if sp == .pep585 && !(originConvertible o.runtimeName && convOk a) then .raisedOther else
-      if !requiredArgsOk o.typingName 1 then .raisedPed else
-      if genericChecksOrigin && !env.sub (v.typeOf env) (env.seqCls o) then .ok false else
-      if !originIs ("typing." ++ o.typingName) "_instancecheck_iterable" then .raisedOther else
-      if iteratorSkip && env.sub (v.typeOf env) env.iteratorCls then .ok true else
-      (match v.iter with
-       | some xs => elemQuant (fun x => isInstance env orc (sp == .pep585) a x) xs
-       | Option.none => .raisedOther)                          -- TypeError: not iterable
-  | pc, .map sp0 o k w, v =>
-      let sp := if pc then Spell.typing else sp0
-      if !requiredArgsOk (mapName sp o) 2 then .raisedPed else
-      if sp == .pep585 && v.hasAsdict then .ok false else
-      if sp == .pep585 && !(originConvertible o.runtimeName && convOk k && convOk w) then .raisedOther else
-      if !requiredArgsOk o.typingName 2 then .raisedPed else
-      if genericChecksOrigin && !env.sub (v.typeOf env) (env.mapCls o) then .ok false else
-      if !originIs ("typing." ++ o.typingName) "_instancecheck_mapping" then .raisedOther else
-      (match v.items with
-       | some kvs => allRaw (fun kv =>
-           (if itemsChecksKey then isInstance env orc (sp == .pep585) k kv.1 else .ok true).and2 fun _ =>
-             (if itemsChecksValue then isInstance env orc (sp == .pep585) w kv.2 else .ok true)) kvs
-       | Option.none => .raisedOther)
-  | pc, .tuple sp0 items, v =>
-      let sp := if pc then Spell.typing else sp0
-      if !requiredArgsOk (tupleName sp) items.length then .raisedPed else
-      if sp == .pep585 && v.hasAsdict then .ok false else
-      if sp == .pep585 && !(originConvertible "tuple" && convOk.convOkL items) then .raisedOther else
-      if !requiredArgsOk "Tuple" items.length then .raisedPed else          -- Tuple[()] : "misses some type arguments"
-      if genericChecksOrigin && !env.sub (v.typeOf env) env.tupleCls then .ok false else
-      if !originIs "typing.Tuple" "_instancecheck_tuple" then .raisedOther else
-      (match v.tupleItems with
-       | some xs => if tupleLengthTest && xs.length != items.length then .ok false else zipRaw env orc (sp == .pep585) items xs
-       | Option.none => .raisedOther)
-  | pc, .tupleVar sp0 a, v =>
-      let sp := if pc then Spell.typing else sp0
-      if !requiredArgsOk (tupleName sp) 2 then .raisedPed else
-      if sp == .pep585 && v.hasAsdict then .ok false else
-      if sp == .pep585 && !(originConvertible "tuple" && convOk a) then .raisedOther else
-      if !requiredArgsOk "Tuple" 2 then .raisedPed else
-      if genericChecksOrigin && !env.sub (v.typeOf env) env.tupleCls then .ok false else
-      if !originIs "typing.Tuple" "_instancecheck_tuple" then .raisedOther else
-      (match v.tupleItems with
-       | some xs => allRaw (fun x => isInstance env orc (sp == .pep585) a x) xs
-       | Option.none => .raisedOther)
-  | _, .bare o, v =>
-      if !requiredArgsOk o.name 0 then .raisedPed else
-      if o.isBuiltin then
-        (if v.hasAsdict then .ok false                        -- `_asdict` branch precedes the bare-builtin test
-         else if bareBuiltins.contains o.name then .raisedPed  -- 'Missing type arguments'
-         else .ok (match o with
-            | .list => env.sub (v.typeOf env) (env.seqCls .list) | .set => env.sub (v.typeOf env) (env.seqCls .set)
-            | .frozenset => env.sub (v.typeOf env) (env.seqCls .frozenset) | .dict => env.sub (v.typeOf env) (env.mapCls .dict)
-            | .tuple => env.sub (v.typeOf env) env.tupleCls | _ => env.sub (v.typeOf env) env.typeCls))
-      else (match o with                                      -- a bare typing generic that passed the table test
-        | .tUnion | .tOptional => .ok false
-        | .tCallable => if v.isNone then .ok false else .raisedOther
-        | .tTuple => if !env.sub (v.typeOf env) env.tupleCls then .ok false else
-                      (match v.tupleItems with | some xs => .ok xs.isEmpty | Option.none => .raisedOther)
-        | .tType => if !env.sub (v.typeOf env) env.typeCls then .ok false else .raisedOther      -- `type_[0]` on ()
-        | .tDict => if !env.sub (v.typeOf env) (env.mapCls .dict) then .ok false else .raisedOther
-        | .tList => if !env.sub (v.typeOf env) (env.seqCls .list) then .ok false else .raisedOther
-        | .tSet => if !env.sub (v.typeOf env) (env.seqCls .set) then .ok false else .raisedOther
-        | .tFrozenSet => if !env.sub (v.typeOf env) (env.seqCls .frozenset) then .ok false else .raisedOther
-        | .tIterable => if !env.sub (v.typeOf env) (env.seqCls .iterable) then .ok false else .raisedOther
-        | _ => if !env.sub (v.typeOf env) (env.seqCls .sequence) then .ok false else .raisedOther)
+  | pc, .seq sp0 o a, v => seqNode env pc sp0 o a v (fun pc' x => isInstance env orc pc' a x)
+  | pc, .map sp0 o k w, v => mapNode env pc sp0 o k w v (fun pc' x => isInstance env orc pc' k x) (fun pc' x => isInstance env orc pc' w x)
+  | pc, .tuple sp0 items, v => tupleNode env pc sp0 items v (fun pc' xs => zipRaw env orc pc' items xs)
+  | pc, .tupleVar sp0 a, v => tupleVarNode env pc sp0 a v (fun pc' x => isInstance env orc pc' a x)
+  | _, .bare o, v => bareNode env o v
   | _, .special k, v => orc k v
 /-- `any([_is_instance(value, typ) for typ in args])`: every member is evaluated, exceptions propagate -/
 def anyRaw (env : Env) (orc : Nat → Val → Raw) : Bool → List Ann → Val → Raw
   | _, [], _ => .ok false
-  | pc, a :: as, v => match isInstance env orc pc a v with
-      | .ok b => (match anyRaw env orc pc as v with
-          | .ok b' => .ok (b || b')
-          | r => r)
-      | r => r
+  | pc, a :: as, v => anyStep (isInstance env orc pc a v) (anyRaw env orc pc as v)
 /-- `all(_is_instance(val, type_) for val, type_ in zip(tup, type_args))` -/
 def zipRaw (env : Env) (orc : Nat → Val → Raw) : Bool → List Ann → List Val → Raw
   | pc, a :: as, x :: xs => (isInstance env orc pc a x).and2 fun _ => zipRaw env orc pc as xs
@@ -365,11 +411,7 @@ def fieldsRaw (env : Env) (orc : Nat → Val → Raw) : Bool → List NameId →
   | pc, n :: ns, a :: as, vnames, xs =>
       match lookupField vnames xs n with
       | Option.none => .raisedOther                            -- KeyError (cannot happen when the key sets are equal)
-      | some x => match isInstance env orc pc a x with
-          | .ok b => (match fieldsRaw env orc pc ns as vnames xs with
-              | .ok b' => .ok (b && b')
-              | r => r)
-          | r => r
+      | some x => allStep (isInstance env orc pc a x) (fieldsRaw env orc pc ns as vnames xs)
   | _, _, _, _, _ => .ok true
 end
 
